@@ -1,6 +1,9 @@
 //! Live endpoints: each entry point is brought into the phase TLC prescribes by a genuine
 //! peer, then the mutated input is delivered and the endpoint observed.
+pub mod dtls;
+pub mod pc;
 pub mod pump;
+pub mod sctp;
 pub mod turn;
 
 use crate::{Ctx, Genuine, apply_bounds, hex, meter, severity};
@@ -35,44 +38,82 @@ impl State {
 
 pub enum Ep {
     Turn(turn::Ep),
+    Dtls(dtls::Ep),
+    Sctp(sctp::Ep),
+    Pc(pc::Ep),
 }
 
 impl Ep {
-    async fn build(entry: &str) -> Result<Ep, String> {
+    async fn build(entry: &str, variant: u64, tpl: &str) -> Result<Ep, String> {
         match entry {
             "turn_udp" => Ok(Ep::Turn(turn::Ep::build(false).await?)),
             "turn_tcp" => Ok(Ep::Turn(turn::Ep::build(true).await?)),
+            "dtls_server" => Ok(Ep::Dtls(dtls::Ep::build(false).await?)),
+            "dtls_client" => Ok(Ep::Dtls(dtls::Ep::build(true).await?)),
+            // the victim is the SCTP server in the first concretisation and the client in the second
+            "sctp" => Ok(Ep::Sctp(sctp::Ep::build(variant % 2 == 1).await?)),
+            "pc_sdp" => Ok(Ep::Pc(pc::Ep::build(false, pc::mode_for(tpl)).await?)),
+            "pc_candidate" => Ok(Ep::Pc(pc::Ep::build(true, pc::mode_for("sdp.webrtc")).await?)),
             _ => Err(format!("unsupported entry {entry}")),
         }
     }
-    async fn progress(&mut self, to: &str) -> Result<(), String> {
+    /// `depth` varies where inside a multi-step phase the genuine traffic stops (from the variant number).
+    async fn progress(&mut self, to: &str, depth: u64, tpl: &str) -> Result<(), String> {
         match self {
             Ep::Turn(e) => e.progress(to).await,
+            Ep::Dtls(e) => e.progress(to, depth).await,
+            Ep::Sctp(e) => e.progress(to, depth).await,
+            Ep::Pc(e) => e.progress(to, tpl).await,
+        }
+    }
+    /// EXT (beyond the listed property): after the measured step, does the endpoint still serve its genuine peer?
+    async fn still_alive(&mut self) -> Option<bool> {
+        match self {
+            Ep::Turn(_) => None,
+            Ep::Dtls(e) => Some(e.still_alive().await),
+            Ep::Sctp(e) => Some(e.still_alive().await),
+            Ep::Pc(_) => None,
         }
     }
     fn genuine(&mut self, tpl: &str) -> Option<Vec<u8>> {
         match self {
             Ep::Turn(e) => e.genuine(tpl),
+            Ep::Dtls(e) => e.genuine(tpl),
+            Ep::Sctp(e) => e.genuine(tpl),
+            Ep::Pc(e) => e.genuine(tpl),
         }
     }
     async fn feed(&mut self, input: &[u8]) -> Feed {
         match self {
             Ep::Turn(e) => e.feed(input).await,
+            Ep::Dtls(e) => e.feed(input).await,
+            Ep::Sctp(e) => e.feed(input).await,
+            Ep::Pc(e) => e.feed(input).await,
+        }
+    }
+    /// Entry-specific repair of a mutated input (e.g. the SCTP checksum), given the mutated field.
+    fn prepare_input(&self, input: Vec<u8>, field: &str) -> Vec<u8> {
+        match self {
+            Ep::Sctp(e) => e.prepare_input(input, field),
+            _ => input,
         }
     }
     fn observe(&self) -> LiveObs {
         match self {
             Ep::Turn(e) => e.observe(),
+            Ep::Dtls(e) => e.observe(),
+            Ep::Sctp(e) => e.observe(),
+            Ep::Pc(e) => e.observe(),
         }
     }
 }
 
 /// Bring a fresh endpoint of `entry` through the history `pre` (progress / earlier feeds).
-async fn prepare(ctx: &Ctx, entry: &str, pre: &[Value], ci: usize) -> Result<Ep, String> {
-    let mut ep = Ep::build(entry).await?;
+async fn prepare(ctx: &Ctx, entry: &str, pre: &[Value], ci: usize, depth: u64, final_tpl: &str) -> Result<Ep, String> {
+    let mut ep = Ep::build(entry, depth, final_tpl).await?;
     for (k, op) in pre.iter().enumerate() {
         match op["op"].as_str().unwrap_or("") {
-            "progress" => ep.progress(op["to"].as_str().unwrap()).await?,
+            "progress" => ep.progress(op["to"].as_str().unwrap(), depth, final_tpl).await?,
             "feed" => {
                 let tpl = op["tpl"].as_str().unwrap();
                 let leaves = ctx.grammars.get(tpl).ok_or("no grammar")?;
@@ -81,6 +122,7 @@ async fn prepare(ctx: &Ctx, entry: &str, pre: &[Value], ci: usize) -> Result<Ep,
                 let g = Genuine::new(leaves, g)?;
                 let mut rng = ctx.rng_for(ci, 100 + k as u64);
                 if let Some(input) = g.concretise(leaves, idx, op["mut"].as_str().unwrap(), Some(&mut rng)) {
+                    let input = ep.prepare_input(input, op["field"].as_str().unwrap());
                     ep.feed(&input).await;
                 }
             }
@@ -92,7 +134,7 @@ async fn prepare(ctx: &Ctx, entry: &str, pre: &[Value], ci: usize) -> Result<Ep,
 
 /// One measured delivery of `input` (None = the genuine message itself) to a fresh endpoint.
 async fn one_run(ctx: &Ctx, entry: &str, pre: &[Value], ci: usize, tpl: &str, class: Option<(usize, &str)>, variant: u64) -> Result<Option<Value>, String> {
-    let mut ep = prepare(ctx, entry, pre, ci).await?;
+    let mut ep = prepare(ctx, entry, pre, ci, variant, tpl).await?;
     let leaves = ctx.grammars.get(tpl).ok_or("no grammar")?;
     let bytes = ep.genuine(tpl).ok_or(format!("no genuine {tpl} for {entry}"))?;
     let g = Genuine::new(leaves, bytes.clone()).map_err(|e| format!("genuine {tpl} does not conform to its grammar table: {e} [{}]", hex(&bytes)))?;
@@ -101,7 +143,7 @@ async fn one_run(ctx: &Ctx, entry: &str, pre: &[Value], ci: usize, tpl: &str, cl
         Some((idx, mutn)) => {
             let mut rng = ctx.rng_for(ci, variant);
             match g.concretise(leaves, idx, mutn, if variant > 0 { Some(&mut rng) } else { None }) {
-                Some(i) => i,
+                Some(i) => ep.prepare_input(i, &leaves[idx].n),
                 None => return Ok(None),
             }
         }
@@ -115,17 +157,23 @@ async fn one_run(ctx: &Ctx, entry: &str, pre: &[Value], ci: usize, tpl: &str, cl
     let peak = meter::alloc_peak_since(base);
     let o = ep.observe();
     let panics = meter::take_panics();
+    let alive = if o.task_panic.is_none() { ep.still_alive().await } else { None };
     let mut res: &'static str = "value";
     let mut detail = String::new();
     if let Some(p) = &o.task_panic {
-        res = "panic";
-        detail = format!("endpoint task panicked: {p}");
+        if p.starts_with("hang:") {
+            res = "hang";
+            detail = p.clone();
+        } else {
+            res = "panic";
+            detail = format!("endpoint task panicked: {p}");
+        }
     } else if meter::panic_count() > p0 {
         res = "panic";
         detail = format!("a task panicked: {}", panics.first().cloned().unwrap_or_default());
     }
     apply_bounds(&ctx.bounds, &mut res, &mut detail, cpu, peak, input.len());
-    let mut v = json!({"res": res, "detail": detail, "post": o.post, "processed": fed.processed, "note": fed.note,
+    let mut v = json!({"res": res, "detail": detail, "post": o.post, "processed": alive.unwrap_or(fed.processed), "note": fed.note,
         "cpu_us": cpu, "alloc": peak, "in_len": input.len(), "panics": panics, "variant": variant, "task_finished": o.task_finished});
     if severity(res) > 2 {
         v["input_hex"] = json!(hex(&input));
@@ -157,7 +205,16 @@ pub async fn run_case(ctx: &Ctx, st: &mut State, ci: usize, c: &Value) -> Value 
     let nv = ctx.nvariants.min(2);
     for v in 0..nv {
         match one_run(ctx, entry, &pre, ci, tpl, Some((idx, mutn)), v).await {
-            Ok(Some(r)) => {
+            Ok(Some(mut r)) => {
+                if r["res"] == "hang" && mutn.starts_with("dup_fill") {
+                    let full = crate::grammar::FILL.load(std::sync::atomic::Ordering::Relaxed);
+                    crate::grammar::FILL.store(full / 2, std::sync::atomic::Ordering::Relaxed);
+                    let half = one_run(ctx, entry, &pre, ci, tpl, Some((idx, mutn)), v).await;
+                    crate::grammar::FILL.store(full, std::sync::atomic::Ordering::Relaxed);
+                    if let Ok(Some(h)) = half {
+                        crate::downgrade_if_linear(&ctx.bounds, &mut r, h["cpu_us"].as_u64().unwrap_or(0));
+                    }
+                }
                 runs += 1;
                 let sev = severity(r["res"].as_str().unwrap());
                 if worst.as_ref().map(|w| severity(w["res"].as_str().unwrap()) < sev).unwrap_or(true) {
